@@ -1,6 +1,7 @@
 package vc
 
 import (
+	"sync"
 	"fmt"
 	"go/constant"
 	"go/token"
@@ -297,9 +298,34 @@ func (e *Exec) unbox(x *Term, t types.Type, pc *Term) Value {
 
 // render gives a source-like, renaming-tolerant description of an SSA value,
 // used in obligation names.
+// valNames: source identifier that refers to an SSA value (from DebugRefs);
+// used only to match the loop keys written in contracts, never in obligation names.
+var valNames sync.Map
+
+var renderNamed bool // guarded by renderMu
+var renderMu sync.Mutex
+
+// RenderNamed renders with source names for values that have one.
+func RenderNamed(v ssa.Value) string {
+	renderMu.Lock()
+	defer renderMu.Unlock()
+	renderNamed = true
+	defer func() { renderNamed = false }()
+	return render(v, 0)
+}
+
 func render(v ssa.Value, depth int) string {
 	if v == nil {
 		return "_"
+	}
+	if renderNamed {
+		switch v.(type) {
+		case *ssa.Parameter, *ssa.Const, *ssa.Global, *ssa.FreeVar:
+		default:
+			if n, ok := valNames.Load(v); ok {
+				return n.(string)
+			}
+		}
 	}
 	if depth > 4 {
 		return "_"
